@@ -111,6 +111,21 @@ def run(tier):
                       "slots": rng.choice([6, 16, 40]), "max": rng.choice([3000, 70000, 400000]), "reps": reps,
                       "base": reps // 2, "os": rng.choice("bad"), "rand_place": i % 2 == 1, "classes": small,
                       "src": "churn"})
+    # sliding-window queues with pinned neighbours: a short FIFO/random-victim queue and a long
+    # FIFO queue (every k-th block) of small-bin and tree-bin sizes share the heap; the live set is
+    # constant, freed neighbours coalesce, split remainders become dv slivers next to live blocks -
+    # reuse of freed space here depends on every branch of the small-request path.  Marks every
+    # iters/16 iterations (SteadyState over window positions), NoGratuitousMap on every OS request.
+    q_small = [41, 56, 72, 100, 120, 168, 200, 232]
+    q_medium = [248, 376, 504, 760, 1016]
+    for i in range(16 if quick else 200):
+        blocks = ([[rng.choice(q_small), rng.choice([1, 8, 16])] for _ in range(rng.randint(3, 6))]
+                  + [[rng.choice(q_medium), 16] for _ in range(rng.randint(1, 3))])
+        rng.shuffle(blocks)
+        plans.append({"kind": "queue", "blocks": blocks, "n_short": rng.choice([4, 8, 16]), "n_long": rng.choice([16, 48]),
+                      "k": rng.choice([3, 4, 5]), "iters": 2000 if quick else 6000, "marks": 16, "base": 8,
+                      "mode": rng.choice(["fifo", "random"]), "cycle": rng.random() < 0.7, "os": rng.choice("bad"),
+                      "seed": rng.randrange(1, 1 << 40), "src": "queue-with-pins"})
     # multi-threaded: T threads share one allocator behind tiny-std's own Mutex (lock, one call,
     # unlock - the composition GlobalDlMalloc uses); each thread repeats a TLC-generated workload
     n_mt = 12 if quick else 150
@@ -218,7 +233,7 @@ def run(tier):
                 "(AllocGen) enumerates all %d allocation orders of <= %d blocks over %d size classes (x 3 free orders); %d of them (quick: all "
                 "with fewer blocks + a sample of the longest; thorough: all) are run; each "
                 "workload is run %d times (a sample 200 times) on the real Dlmalloc over the simulated OS with rotating placement, plus "
-                "boundary-size workloads, churn workloads and %d multi-threaded runs (2-4 threads through tiny-std's Mutex); every step is judged by TLC (baseline = first half of the "
+                "boundary-size workloads, churn workloads, sliding-window queues with pinned neighbours and %d multi-threaded runs (2-4 threads through tiny-std's Mutex); every step is judged by TLC (baseline = first half of the "
                 "repetitions). evaluations = repetition marks judged; non-trivial = distinct workloads in which the OS was asked "
                 "for memory after the first repetition or memory was handed back" % (len(seqs), W, len(classes), len(used), reps, n_mt))
     chk.assumptions = [
